@@ -133,15 +133,17 @@ Definition long_prefix (l : line) : bool := match lpre l with _ :: _ :: _ => tru
 Definition strip1 (l : line) : line := (tl (lpre l), ltxt l, ldesc l).
 (* all visible text of a line whose prefix is used up: a colon outside a definition term is ordinary text *)
 Definition line_text (l : line) : list tree := ltxt l ++ match ldesc l with Some d => d | None => [] end.
-(* splitdl (core.py:389-398, called at :531-538 only for prefix ';' when the item's first line has no prefix left):
-   the text after the first colon leaves the term and becomes a description node that FOLLOWS the term node *)
-Definition split_dl (c : N) (l : line) : line * list tree :=
+(* splitdl (core.py:393-402, called at :533-545 only for prefix ';' when the item's first line has no prefix left):
+   Some d = the text after the first colon; it leaves the term and becomes a description node that FOLLOWS the term node.
+   The lines swallowed by the item come after the description in the source and are moved into the description node
+   (core.py:540-543, fix 9ee1990). *)
+Definition split_dl (c : N) (l : line) : option (list tree) :=
   if N.eqb c c_semi then
     match lpre l, ldesc l with
-    | [_], Some d => ((lpre l, ltxt l, None), [Node LDd d])
-    | _, _ => (l, [])
+    | [_], Some d => Some d
+    | _, _ => None
     end
-  else (l, []).
+  else None.
 
 (* lines swallowed by an item: following lines with the same first char and a prefix longer than 1 *)
 Fixpoint take_sub (c : N) (ls : list line) : list line * list line :=
@@ -184,8 +186,12 @@ Fixpoint den_list (fuel : nat) (ls : list line) : list tree :=
         Node (if N.eqb c c_star then LUl else LOl) items :: den_list f rest
       else
         let '(sub, rest) := take_sub c r in
-        let '(l1, dd) := split_dl c l in
-        Node (if N.eqb c c_semi then LDt else LDd) (den_list f (map strip1 (l1 :: sub))) :: dd ++ den_list f rest
+        match split_dl c l with
+        | Some d =>                                           (* '; term : description' [+ swallowed sub-lists] *)
+          Node LDt (ltxt l) :: Node LDd (d ++ den_list f (map strip1 sub)) :: den_list f rest
+        | None =>
+          Node (if N.eqb c c_semi then LDt else LDd) (den_list f (map strip1 (l :: sub))) :: den_list f rest
+        end
     end
   end.
 
